@@ -463,7 +463,6 @@ Proof.
   split; auto.
 Qed.
 
-Definition ops_at (h : heap) (c : addr) : list addr := match get h c with OCirc ops _ => ops | _ => [] end.
 
 Lemma pcq_inplace_eq m c spans h :
   partition_circuit_qubits m true c spans h = (ops' <- pcq_loop c 0 (ops_at h c) spans ;; ret (c, ops')) h.
@@ -1191,8 +1190,6 @@ Lemma fresh_repaired h cl : in_place cl = false ->
 Proof. intros NI a Rout Rin. exfalso. eapply fresh_repaired_gen; eauto. Qed.
 
 (* destructive edits: arbitrary overwrites of objects that were reachable from the result when it was returned *)
-Definition apply_edits (h : heap) (es : list (addr * obj)) : heap :=
-  fold_left (fun h1 e => upd h1 (fst e) (snd e)) es h.
 
 Lemma apply_edits_old n : forall es h1, (forall e, In e es -> n <= fst e) ->
   forall a, a < n -> get (apply_edits h1 es) a = get h1 a.
@@ -1234,7 +1231,6 @@ Proof.
 Qed.
 
 (* ---- later calls: after arbitrary edits of a result the arguments span exactly the same object graph *)
-Definition wf (h : heap) : Prop := forall a, a < length h -> forall b, In b (refs (get h a)) -> b < length h.
 
 Lemma reachable_same h h' roots :
   (forall a, a < length h -> get h' a = get h a) -> length h <= length h' -> wf h ->
@@ -1276,10 +1272,13 @@ Qed.
    from the arguments: no other pre-existing state (module level or unrelated) can leak into a result. *)
 Section ConfineR.
 Variable h0 : heap.
-Variable args : list addr.
+(* SO = the OLD objects a new object may reference; it must be closed under the references of the old heap.
+   SO := reachable h0 args  gives confinement (every mode);  SO := nothing  gives freshness (clean inputs). *)
+Variable SO : addr -> Prop.
+Hypothesis S_closed : forall a, SO a -> a < length h0 /\ (forall b, In b (refs (get h0 a)) -> b < length h0 -> SO b).
 
 Definition freshR (a : addr) : Prop := length h0 <= a.
-Definition QR (a : addr) : Prop := length h0 <= a \/ reachable h0 args a.
+Definition QR (a : addr) : Prop := length h0 <= a \/ SO a.
 
 Definition invR (h1 : heap) : Prop :=
   length h0 <= length h1 /\
@@ -1300,10 +1299,10 @@ Proof. intros H. split; [lia|]. split; auto. Qed.
 
 Lemma QR_refs h1 a : invR h1 -> QR a -> Forall QR (refs (get h1 a)).
 Proof.
-  intros (L & F & C) [Fa|Ra]; [now apply C|].
-  pose proof (reachable_lt _ _ _ Ra) as La. rewrite F by auto.
+  intros (L & F & C) [Fa|Sa]; [now apply C|].
+  destruct (S_closed a Sa) as [La Hc]. rewrite F by auto.
   apply Forall_forall. intros b Ib.
-  destruct (Nat.lt_ge_cases b (length h0)) as [Lb|Lb]; [right; eapply reach_step; eauto | left; exact Lb].
+  destruct (Nat.lt_ge_cases b (length h0)) as [Lb|Lb]; [right; now apply Hc | left; exact Lb].
 Qed.
 
 Lemma okR_ret {A} (fr : A -> Prop) x : fr x -> okR fr (ret x).
@@ -1459,9 +1458,9 @@ Proof.
     + intros a' Pa'. rbind; [apply IH; auto|]. apply okR_ret. constructor; auto.
 Qed.
 
-Lemma pcq_R m c spans : QR c -> okR fresh_co (partition_circuit_qubits m false c spans).
+Lemma pcq_R m c spans : okR fresh_co (circuit_copy (fix6 m) c) -> okR fresh_co (partition_circuit_qubits m false c spans).
 Proof.
-  intros Qc. unfold partition_circuit_qubits, target. rbind; [apply circuit_copy_R; exact Qc|].
+  intros Qc. unfold partition_circuit_qubits, target. rbind; [exact Qc|].
   destruct H as [Fc Fo].
   rbind; [apply (pcq_loop_R (fst x) spans freshR); auto using fresh_QR|].
   apply okR_ret. split; auto.
@@ -1473,9 +1472,10 @@ Proof.
   rbind; [apply set_op_R; [auto|now apply fresh_QR]|]. now apply okR_ret.
 Qed.
 
-Lemma cut_gates_R m c gids : QR c -> okR (fun cb => freshR (fst cb) /\ freshR (snd cb)) (cut_gates m false c gids).
+Lemma cut_gates_R m c gids : okR fresh_co (circuit_copy (fix6 m) c) ->
+  okR (fun cb => freshR (fst cb) /\ freshR (snd cb)) (cut_gates m false c gids).
 Proof.
-  intros Qc. unfold cut_gates, target. rbind; [apply circuit_copy_R; exact Qc|]. destruct H as [Fc Fo].
+  intros Qc. unfold cut_gates, target. rbind; [exact Qc|]. destruct H as [Fc Fo].
   rbind; [apply okR_mapM; intros; apply cut_one_R; auto|].
   rbind; [apply okR_alloc; simpl; now apply Forall_fresh_QR|]. apply okR_ret. auto.
 Qed.
@@ -1520,7 +1520,8 @@ Qed.
 Lemma sub_obs_R p l : okR freshR (sub_obs p l).
 Proof. unfold sub_obs. rbind; [apply okR_read_any|]. apply okR_alloc. destruct x; simpl; constructor. Qed.
 
-Lemma partition_problem_R m c spans sides nl obs : QR c -> okR (Forall QR) (partition_problem m c spans sides nl obs).
+Lemma partition_problem_R m c spans sides nl obs : okR fresh_co (circuit_copy (fix6 m) c) ->
+  okR (Forall QR) (partition_problem m c spans sides nl obs).
 Proof.
   intros Qc. unfold partition_problem. rbind; [apply pcq_R; exact Qc|]. destruct H as [Fc Fo]. cbv zeta.
   rbind; [apply relabel_loop_R; auto|].
@@ -1544,10 +1545,10 @@ Proof.
   - rbind; [apply new_qpd2_R|]. destruct H0 as [G1 G2]. apply okR_ret. now apply fresh_QR.
 Qed.
 
-Lemma cut_wires_R m c : QR c -> okR freshR (cut_wires m c).
+Lemma cut_wires_R m c : okR (Forall (fun a => okR QR (wire_piece m a))) (ops_of c) -> okR freshR (cut_wires m c).
 Proof.
-  intros Qc. unfold cut_wires. rbind; [apply ops_of_R; exact Qc|]. rbind; [apply cregs_of_R|].
-  rbind; [apply okR_mapM; intros a Ia; apply wire_piece_R; rewrite Forall_forall in H; auto|].
+  intros Qc. unfold cut_wires. rbind; [exact Qc|]. rbind; [apply cregs_of_R|].
+  rbind; [apply okR_mapM; intros a Ia; rewrite Forall_forall in H; auto|].
   apply okR_alloc. simpl. exact H1.
 Qed.
 
@@ -1560,7 +1561,8 @@ Proof.
   rbind; [apply okR_alloc; constructor|]. rbind; [apply insert_op_R; [auto|now apply fresh_QR]|]. apply IH.
 Qed.
 
-Lemma find_cuts_R m c gids wires : QR c -> okR (fun cm => freshR (fst cm) /\ freshR (snd cm)) (find_cuts m c gids wires).
+Lemma find_cuts_R m c gids wires : okR fresh_co (circuit_copy (fix6 m) c) ->
+  okR (fun cm => freshR (fst cm) /\ freshR (snd cm)) (find_cuts m c gids wires).
 Proof.
   intros Qc. unfold find_cuts. rbind; [apply cut_gates_R; exact Qc|]. destruct H as [Fc Fb].
   rbind; [apply insert_markers_R; auto|]. rbind; [apply okR_alloc; constructor|]. apply okR_ret. auto.
@@ -1622,33 +1624,33 @@ Proof.
   rbind; [apply cregs_of_R|]. apply okR_write; auto. simpl. now apply Forall_concat.
 Qed.
 
-Lemma dqi_R m c ids mids : QR c -> okR freshR (decompose_qpd_instructions m false c ids mids).
+Lemma dqi_R m c ids mids : okR fresh_co (circuit_copy false c) -> okR freshR (decompose_qpd_instructions m false c ids mids).
 Proof.
-  intros Qc. unfold decompose_qpd_instructions, target. rbind; [apply circuit_copy_R; exact Qc|]. destruct H as [Fc Fo].
+  intros Qc. unfold decompose_qpd_instructions, target. rbind; [exact Qc|]. destruct H as [Fc Fo].
   rbind; [apply dqi_body_R; auto|]. now apply okR_ret.
 Qed.
 
 Lemma qpd_ids_of_R ops : okR (fun _ => True) (qpd_ids_of ops).
 Proof. intros h1 I. simpl. auto. Qed.
 
-Lemma one_experiment_R m c mids : QR c -> okR freshR (one_experiment m c mids).
+Lemma one_experiment_R m c mids : okR fresh_co (circuit_copy false c) -> okR freshR (one_experiment m c mids).
 Proof.
-  intros Qc. unfold one_experiment. rbind; [apply circuit_copy_R; exact Qc|]. destruct H as [Fc Fo].
+  intros Qc. unfold one_experiment. rbind; [exact Qc|]. destruct H as [Fc Fo].
   rbind; [apply qpd_ids_of_R|]. rbind; [apply dqi_body_R; auto|]. now apply okR_ret.
 Qed.
 
-Lemma experiments_for_sample_R m circs ng ci sample : Forall QR circs ->
+Lemma experiments_for_sample_R m circs ng ci sample : Forall (fun c => okR fresh_co (circuit_copy false c)) circs ->
   okR (Forall QR) (experiments_for_sample m circs ng ci sample).
 Proof.
   intros Fc. unfold experiments_for_sample. rbind.
   - apply okR_mapM with (fr := Forall QR). intros [[c g] cidx] I.
-    assert (Qc : QR c).
+    assert (Qc : okR fresh_co (circuit_copy false c)).
     { rewrite Forall_forall in Fc. apply Fc. apply in_combine_l in I. apply in_combine_l in I. exact I. }
     eapply okR_weaken; [apply Forall_fresh_QR|]. apply okR_mapM. intros; now apply one_experiment_R.
   - apply okR_ret. now apply Forall_concat.
 Qed.
 
-Lemma generate_R m circs obs samples ng ci : Forall QR circs ->
+Lemma generate_R m circs obs samples ng ci : Forall (fun c => okR fresh_co (circuit_copy false c)) circs ->
   okR (Forall QR) (generate_cutting_experiments m circs obs samples ng ci).
 Proof.
   intros Fc. unfold generate_cutting_experiments.
@@ -1661,52 +1663,142 @@ Qed.
 Lemma reconstruct_R rs co obs : okR freshR (reconstruct rs co obs).
 Proof. unfold reconstruct. apply okR_alloc. constructor. Qed.
 
-Lemma separate_R m c sides nl : QR c -> okR (Forall QR) (separate_circuit m c sides nl).
+Lemma separate_R m c sides nl : okR (Forall (fun a => okR freshR (copy_op (fix6 m) a))) (ops_of c) ->
+  okR (Forall QR) (separate_circuit m c sides nl).
 Proof.
-  intros Qc. unfold separate_circuit. rbind; [apply ops_of_R; exact Qc|]. rbind; [apply cregs_of_R|].
+  intros Qc. unfold separate_circuit. rbind; [exact Qc|]. rbind; [apply cregs_of_R|].
   rbind.
   - apply okR_mapM with (fr := freshR). intros l _. unfold sep_sub.
     rbind; [|apply okR_alloc; simpl; apply Forall_concat; exact H1].
     apply okR_mapM with (fr := Forall QR). intros [a s] Ias. unfold sep_piece; simpl.
     destruct (Nat.eqb (fst s) l); [|apply okR_ret; constructor].
-    rbind; [apply copy_op_R; rewrite Forall_forall in H; apply H; eapply in_combine_l; eauto|].
+    rbind; [rewrite Forall_forall in H; apply H; eapply in_combine_l; eauto|].
     apply okR_ret. constructor; [now apply fresh_QR|constructor].
   - rbind; [apply okR_alloc; simpl; now apply Forall_fresh_QR|].
     rbind; [apply okR_alloc; constructor|].
     apply okR_ret. repeat (apply Forall_cons; [now apply fresh_QR|]); apply Forall_nil.
 Qed.
 
+(* ---- reading OLD objects whose content is known (frame): the boundary used for clean inputs *)
+Lemma okR_read_old a : a < length h0 -> okR (fun o => o = get h0 a) (read a).
+Proof. intros La h1 I. simpl. split; [exact I|]. destruct I as (_ & F & _). now apply F. Qed.
+
+Lemma ops_of_old c (P : addr -> Prop) : c < length h0 -> Forall P (ops_at h0 c) -> okR (Forall P) (ops_of c).
+Proof.
+  intros Lc FP. unfold ops_of. rbind; [apply okR_read_old; exact Lc|]. hnf in H; subst x. apply okR_ret.
+  unfold ops_at in FP. destruct (get h0 c); auto.
+Qed.
+
+Lemma copy_op_old deep a : a < length h0 -> op_nobasis (get h0 a) = true -> okR freshR (copy_op deep a).
+Proof.
+  intros La NB. unfold copy_op. rbind; [apply okR_read_old; exact La|]. hnf in H; subst x.
+  destruct (get h0 a); try (apply okR_alloc; constructor).
+  destruct basis as [b|]; [discriminate|apply okR_alloc; constructor].
+Qed.
+
+Lemma circuit_copy_old deep c : circ_clean h0 c = true -> okR fresh_co (circuit_copy deep c).
+Proof.
+  unfold circ_clean, valid. intros CC. apply andb_prop in CC as [Lc Fo]. apply Nat.ltb_lt in Lc.
+  rewrite forallb_forall in Fo.
+  unfold circuit_copy.
+  rbind; [apply (ops_of_old c (fun a => a < length h0 /\ op_nobasis (get h0 a) = true)); [exact Lc|]|].
+  - apply Forall_forall. intros a Ia. specialize (Fo a Ia). apply andb_prop in Fo as [X Y]. apply Nat.ltb_lt in X. auto.
+  - rbind; [apply cregs_of_R|].
+    rbind; [apply okR_mapM; intros a Ia; rewrite Forall_forall in H; destruct (H a Ia); now apply copy_op_old|].
+    rbind; [apply okR_alloc; simpl; now apply Forall_fresh_QR|].
+    apply okR_ret. split; auto.
+Qed.
+
+Lemma ops_copy_old deep c : circ_clean h0 c = true -> okR (Forall (fun a => okR freshR (copy_op deep a))) (ops_of c).
+Proof.
+  unfold circ_clean, valid. intros CC. apply andb_prop in CC as [Lc Fo]. apply Nat.ltb_lt in Lc.
+  rewrite forallb_forall in Fo. apply ops_of_old; [exact Lc|].
+  apply Forall_forall. intros a Ia. specialize (Fo a Ia). apply andb_prop in Fo as [X Y]. apply Nat.ltb_lt in X.
+  now apply copy_op_old.
+Qed.
+
+Lemma wire_piece_old m a : a < length h0 -> op_wireclean (get h0 a) = true -> okR QR (wire_piece m a).
+Proof.
+  intros La WC. unfold wire_piece. rbind; [apply okR_read_old; exact La|]. hnf in H; subst x.
+  destruct (get h0 a); try discriminate. destruct k; try discriminate.
+  - eapply okR_weaken; [apply fresh_QR|]. apply okR_alloc. constructor.
+  - rbind; [apply new_qpd2_R|]. destruct H as [G1 G2]. apply okR_ret. now apply fresh_QR.
+Qed.
+
+Lemma ops_wire_old m c : wires_clean h0 c = true -> okR (Forall (fun a => okR QR (wire_piece m a))) (ops_of c).
+Proof.
+  unfold wires_clean, valid. intros CC. apply andb_prop in CC as [Lc Fo]. apply Nat.ltb_lt in Lc.
+  rewrite forallb_forall in Fo. apply ops_of_old; [exact Lc|].
+  apply Forall_forall. intros a Ia. specialize (Fo a Ia). apply andb_prop in Fo as [X Y]. apply Nat.ltb_lt in X.
+  now apply wire_piece_old.
+Qed.
+
 End ConfineR.
 
-(* ---- Part C, final statement *)
-Lemma args_QR h roots : Forall (QR h roots) roots.
+(* ---- Part C, final statements *)
+Lemma reach_S_closed h roots : forall a, reachable h roots a ->
+  a < length h /\ (forall b, In b (refs (get h a)) -> b < length h -> reachable h roots b).
+Proof. intros a R. split; [eapply reachable_lt; eauto|]. intros b Ib Lb. eapply reach_step; eauto. Qed.
+
+Lemma args_QR h roots : Forall (QR h (reachable h roots)) roots.
 Proof.
   apply Forall_forall. intros a Ia.
   destruct (Nat.lt_ge_cases a (length h)) as [L|L]; [right; now apply reach_root | left; exact L].
 Qed.
 
-Lemma run_R h m cl : in_place cl = false ->
-  okR h (args_of cl) (Forall (QR h (args_of cl))) (run m cl).
+(* the shape shared by the confinement proof (arguments readable because reachable) and the freshness proof
+   (arguments readable because clean): every entry point only needs its argument circuits to be readable *)
+(* the argument circuits that a call copies with QuantumCircuit.copy() *)
+Definition circ_args (cl : call) : list addr :=
+  match cl with
+  | CPcq _ c _ | CCutGates _ c _ | CPartition c _ _ _ _ | CFindCuts c _ _ | CDqi _ c _ _ => [c]
+  | CGenerate circs _ _ _ _ => circs
+  | _ => []
+  end.
+
+Lemma circ_args_args cl c : In c (circ_args cl) -> In c (args_of cl).
+Proof. destruct cl; simpl; intuition. Qed.
+
+Lemma run_R_gen h (SO : addr -> Prop) (SC : forall a, SO a -> a < length h /\ (forall b, In b (refs (get h a)) -> b < length h -> SO b)) m cl :
+  in_place cl = false ->
+  (forall deep c, In c (circ_args cl) -> okR h SO (fresh_co h) (circuit_copy deep c)) ->
+  (forall c, cl = CCutWires c -> okR h SO (Forall (fun a => okR h SO (QR h SO) (wire_piece m a))) (ops_of c)) ->
+  (forall c sides nl, cl = CSeparate c sides nl -> okR h SO (Forall (fun a => okR h SO (freshR h) (copy_op (fix6 m) a))) (ops_of c)) ->
+  okR h SO (Forall (QR h SO)) (run m cl).
 Proof.
-  intros NI. pose proof (args_QR h (args_of cl)) as QA. rewrite Forall_forall in QA.
+  intros NI RC RW RS.
   destruct cl; simpl in NI; subst; unfold run.
-  - eapply okR_bind; [apply pcq_R; apply QA; simpl; auto|]. intros x [Fc _]. apply okR_ret.
+  - eapply okR_bind; [apply pcq_R; first [exact SC | apply (RC (fix6 m) c); simpl; auto]|]. intros x [Fc _]. apply okR_ret.
     apply Forall_cons; [now apply fresh_QR|apply Forall_nil].
-  - eapply okR_bind; [apply cut_gates_R; apply QA; simpl; auto|]. intros x [F1 F2]. apply okR_ret.
+  - eapply okR_bind; [apply cut_gates_R; first [exact SC | apply (RC (fix6 m) c); simpl; auto]|]. intros x [F1 F2]. apply okR_ret.
     apply Forall_cons; [now apply fresh_QR|]. apply Forall_cons; [now apply fresh_QR|apply Forall_nil].
-  - apply partition_problem_R. apply QA; simpl; auto.
-  - eapply okR_bind; [apply cut_wires_R; apply QA; simpl; auto|]. intros x Fx. apply okR_ret.
+  - apply partition_problem_R; first [exact SC | apply (RC (fix6 m) c); simpl; auto].
+  - eapply okR_bind; [apply cut_wires_R; first [exact SC | now apply RW]|]. intros x Fx. apply okR_ret.
     apply Forall_cons; [now apply fresh_QR|apply Forall_nil].
   - eapply okR_bind; [apply expand_R|]. intros x Fx. apply okR_ret.
     apply Forall_cons; [now apply fresh_QR|apply Forall_nil].
-  - eapply okR_bind; [apply find_cuts_R; apply QA; simpl; auto|]. intros x [F1 F2]. apply okR_ret.
+  - eapply okR_bind; [apply find_cuts_R; first [exact SC | apply (RC (fix6 m) c); simpl; auto]|]. intros x [F1 F2]. apply okR_ret.
     apply Forall_cons; [now apply fresh_QR|]. apply Forall_cons; [now apply fresh_QR|apply Forall_nil].
-  - apply generate_R. apply Forall_forall. intros c Ic. apply QA. simpl. apply in_or_app; left; exact Ic.
-  - eapply okR_bind; [apply dqi_R; apply QA; simpl; auto|]. intros x Fx. apply okR_ret.
+  - apply generate_R; try exact SC. apply Forall_forall. intros c Ic.
+    apply (RC false c). exact Ic.
+  - eapply okR_bind; [apply dqi_R; first [exact SC | apply (RC false c); simpl; auto]|]. intros x Fx. apply okR_ret.
     apply Forall_cons; [now apply fresh_QR|apply Forall_nil].
   - eapply okR_bind; [apply reconstruct_R|]. intros x Fx. apply okR_ret.
     apply Forall_cons; [now apply fresh_QR|apply Forall_nil].
-  - apply separate_R. apply QA; simpl; auto.
+  - apply separate_R; try exact SC. eapply RS; reflexivity.
+Qed.
+
+Lemma run_R h m cl : in_place cl = false ->
+  okR h (reachable h (args_of cl)) (Forall (QR h (reachable h (args_of cl)))) (run m cl).
+Proof.
+  intros NI. pose proof (args_QR h (args_of cl)) as QA. rewrite Forall_forall in QA.
+  pose proof (reach_S_closed h (args_of cl)) as SC.
+  apply run_R_gen; auto.
+  - intros deep c Ic. apply circuit_copy_R; [exact SC|]. apply QA. now apply circ_args_args.
+  - intros c ->. eapply okR_weaken; [|apply ops_of_R; [exact SC|apply QA; simpl; auto]].
+    intros ops F. eapply Forall_impl; [|exact F]. intros a Qa. now apply wire_piece_R.
+  - intros c sides nl ->. eapply okR_weaken; [|apply ops_of_R; [exact SC|apply QA; simpl; auto]].
+    intros ops F. eapply Forall_impl; [|exact F]. intros a Qa. now apply copy_op_R.
 Qed.
 
 (* whatever is reachable from a result - in EVERY mode, in particular on the model of the current tree - is a new
@@ -1716,12 +1808,62 @@ Lemma result_confined m h cl : in_place cl = false ->
             length h <= a \/ reachable h (args_of cl) a.
 Proof.
   intros NI.
-  assert (I0 : invR h (args_of cl) h).
+  assert (I0 : invR h (reachable h (args_of cl)) h).
   { apply invR_refl. intros a La. rewrite get_dangling by exact La. constructor. }
   destruct (run_R h m cl NI h I0) as [I F].
   intros a R. induction R as [a Ia La | a b Ra IH Ib Lb].
   - rewrite Forall_forall in F. exact (F a Ia).
-  - pose proof (QR_refs h (args_of cl) _ a I IH) as Fr. rewrite Forall_forall in Fr. exact (Fr b Ib).
+  - pose proof (QR_refs h _ (reach_S_closed h (args_of cl)) _ a I IH) as Fr. rewrite Forall_forall in Fr. exact (Fr b Ib).
+Qed.
+
+(* ---- Part D: clean inputs.  With S = nothing every new object references only new objects, in EVERY mode:
+   on inputs outside the sharing classes the model of the current tree shares nothing either *)
+Lemma run_D h m cl : in_place cl = false -> clean h cl = true ->
+  okR h (fun _ => False) (Forall (QR h (fun _ => False))) (run m cl).
+Proof.
+  intros NI CL.
+  assert (SC : forall a, (fun _ : addr => False) a -> a < length h /\ (forall b, In b (refs (get h a)) -> b < length h -> False))
+    by (intros a []).
+  apply run_R_gen; auto.
+  - intros deep c Ic. apply circuit_copy_old.
+    destruct cl; simpl in CL, Ic; try contradiction; try (destruct Ic as [<-|[]]; exact CL).
+    rewrite forallb_forall in CL. now apply CL.
+  - intros c ->. simpl in CL. now apply ops_wire_old.
+  - intros c sides nl ->. simpl in CL. now apply ops_copy_old.
+Qed.
+
+Lemma result_reach_new_clean m h cl : in_place cl = false -> clean h cl = true ->
+  forall a, reachable (fst (run m cl h)) (snd (run m cl h)) a -> length h <= a.
+Proof.
+  intros NI CL.
+  assert (SC : forall a, (fun _ : addr => False) a -> a < length h /\ (forall b, In b (refs (get h a)) -> b < length h -> False))
+    by (intros a []).
+  assert (I0 : invR h (fun _ => False) h).
+  { apply invR_refl. intros a La. rewrite get_dangling by exact La. constructor. }
+  destruct (run_D h m cl NI CL h I0) as [I F].
+  assert (G : forall a, reachable (fst (run m cl h)) (snd (run m cl h)) a -> QR h (fun _ => False) a).
+  { intros a R. induction R as [a Ia La | a b Ra IH Ib Lb].
+    - rewrite Forall_forall in F. exact (F a Ia).
+    - pose proof (QR_refs h _ SC _ a I IH) as Fr. rewrite Forall_forall in Fr. exact (Fr b Ib). }
+  intros a R. destruct (G a R) as [X|[]]. exact X.
+Qed.
+
+(* edits of a result can only hit new objects or objects that were reachable from the arguments (every mode) *)
+Lemma apply_edits_other a : forall es h1, (forall e, In e es -> fst e <> a) -> get (apply_edits h1 es) a = get h1 a.
+Proof.
+  induction es as [|e r IH]; intros h1 H; simpl; [reflexivity|].
+  unfold apply_edits in *. simpl. rewrite IH by (intros; apply H; right; auto).
+  apply get_upd_other. apply H. left; auto.
+Qed.
+
+Lemma edits_confined m h cl : in_place cl = false ->
+  forall es, (forall e, In e es -> reachable (fst (run m cl h)) (snd (run m cl h)) (fst e)) ->
+  forall a, a < length h -> ~ reachable h (args_of cl) a -> get (apply_edits (fst (run m cl h)) es) a = get h a.
+Proof.
+  intros NI es H a La NR.
+  rewrite apply_edits_other.
+  - now apply frame_noninplace.
+  - intros e Ie E. destruct (result_confined m h cl NI _ (H e Ie)) as [X|X]; [lia|]. apply NR. now rewrite <- E.
 Qed.
 
 (* two calls on disjoint argument graphs: their results share nothing old (no hidden common state in the model) *)
@@ -1735,4 +1877,11 @@ Proof.
   - destruct (result_confined m h cl NI a R1) as [X|X]; [lia|exact X].
   - destruct (result_confined m' h1 cl' NI' a R2) as [X|X]; [|exact X].
     pose proof (proj1 (frame_noninplace m h cl NI)). unfold h1 in X. lia.
+Qed.
+
+Lemma wfb_wf h : wfb h = true -> wf h.
+Proof.
+  unfold wfb, wf, get. intros H a La b Ib. rewrite forallb_forall in H.
+  specialize (H (nth a h ONull) (nth_In h ONull La)). rewrite forallb_forall in H.
+  apply Nat.ltb_lt. now apply H.
 Qed.
